@@ -6,6 +6,7 @@ import (
 	"errors"
 	"fmt"
 	"io"
+	"unicode/utf8"
 
 	"github.com/moorara/algo/grammar"
 	"github.com/moorara/algo/lexer"
@@ -58,6 +59,9 @@ type inputBuffer interface {
 // EBNF (Extended Backus-Naur Form) is used to define context-free grammars and their corresponding languages.
 type Lexer struct {
 	in inputBuffer
+
+	// nul is the position of the first NUL character of the source, if there is one.
+	nul *lexer.Position
 }
 
 // New creates a new lexical analyzer for the EBNF language.
@@ -71,7 +75,14 @@ func New(filename string, src io.Reader) (*Lexer, error) {
 		return nil, err
 	}
 
-	if len(data) > 0 {
+	// The input buffer takes a NUL character for the end of the input. The source is cut there, so that the text
+	// before it is read like any other; reaching its end is then reported as a lexical error at the NUL character.
+	nul := nulPosition(filename, data)
+	if nul != nil {
+		data = data[:bytes.IndexByte(data, 0)]
+	}
+
+	if len(data) > 0 || nul != nil {
 		src = bytes.NewReader(append(data, '\n'))
 	} else {
 		src = bytes.NewReader(data)
@@ -91,8 +102,38 @@ func New(filename string, src io.Reader) (*Lexer, error) {
 	}
 
 	return &Lexer{
-		in: in,
+		in:  in,
+		nul: nul,
 	}, nil
+}
+
+// nulPosition returns the position of the first NUL character in data, or nil if there is none.
+func nulPosition(filename string, data []byte) *lexer.Position {
+	i := bytes.IndexByte(data, 0)
+	if i < 0 {
+		return nil
+	}
+
+	before := data[:i]
+	lastLine := before[bytes.LastIndexByte(before, '\n')+1:]
+
+	return &lexer.Position{
+		Filename: filename,
+		Offset:   utf8.RuneCount(before),
+		Line:     bytes.Count(before, []byte{'\n'}) + 1,
+		Column:   utf8.RuneCount(lastLine) + 1,
+	}
+}
+
+// endOfInput is given the error that ended the input.
+// If the source was cut at a NUL character, the rest of it was never read: the NUL character is reported
+// as a lexical error rather than silently accepted as the end of the source.
+func (l *Lexer) endOfInput(err error) error {
+	if l.nul != nil && errors.Is(err, io.EOF) {
+		return fmt.Errorf("lexical error at %s:%q", l.nul, "\x00")
+	}
+
+	return err
 }
 
 // NextToken scans the input stream until it recognizes a valid token, which it then returns.
@@ -108,13 +149,13 @@ func (l *Lexer) NextToken() (lexer.Token, error) {
 				case ERR:
 					return lexer.Token{}, errors.New(token.Lexeme)
 				case WS, EOL, COMMENT:
-					return lexer.Token{}, err
+					return lexer.Token{}, l.endOfInput(err)
 				default:
 					return token, nil
 				}
 			}
 
-			return lexer.Token{}, err
+			return lexer.Token{}, l.endOfInput(err)
 		}
 
 		// Keep running the DFA through the input symbols.
